@@ -168,9 +168,9 @@ TABLE["C05"] = {
 }
 
 SIG_PIPE = {"name": "sigs", "cmd": ["sigs"], "n_quick": 1, "n_thorough": 1, "timeout": 600}
-SIG_RULE = ("a family of 54 function-pointer types (incl. types parameterised by char / integer / bool constants, and Poll / Option wrappers around function-pointer types next to those types themselves) differing in arity (0-3), one parameter type, return type, reference mutability, raw-pointer mutability, unsafety, ABI (Rust, C, system), "
+SIG_RULE = ("a family of 57 function-pointer types (incl. types parameterised by char / integer / bool constants, and Poll / Option wrappers around function-pointer types next to those types themselves) differing in arity (0-3), one parameter type, return type, reference mutability, raw-pointer mutability, unsafety, ABI (Rust, C, system, C-unwind, system-unwind), "
             "including adversarial return types that end in `-> bool` (fn() -> bool, *const fn() -> bool, &dyn Fn() -> bool), a user type named bool, (bool,), Option<bool>, same-named types in different modules (v1::Cfg / v2::Cfg as reference parameter, return value and generic argument) and one differing only in letter case: "
-            "rustc's type_name of every type vs the model's rendering; all 2916 ordered pairs through func!/func!, plus closure! and fake! replacements, typed-with-unchecked both ways, null pointers, "
+            "rustc's type_name of every type vs the model's rendering; all 3249 ordered pairs through func!/func!, plus closure! and fake! replacements, typed-with-unchecked both ways, null pointers, "
             "all 36 ordered pairs of async output types, and the forced-boolean gate on every family type and on every string of up to 5 (thorough: 6) tokens over {fn ( ) -> bool u8 , & é} passed as the recorded signature text; pairs differing only in lifetime spelling are run but not judged; for C09 also every arm of fake! installed over a target written with the identical type (must be accepted). Exhaustive over the family")
 TABLE["C09"] = {
     "pipelines": [SIG_PIPE, {"name": "arms", "kind": "armgen", "own_keys_only": ["c09."]}],
